@@ -22,12 +22,12 @@ def comparator_tables(ctx, which):
     P = ctx.P
     if which == 'owned':
         B = ctx.body(CMP_O)
-        R = ctx.body('erltf::term::term_type_order')
+        R = P.B('erltf::term::term_type_order') if 'erltf::term::term_type_order' in ctx.F.bodies else None      # (where it lives today; found by shape below if it has moved)
         rank_fn = 'erltf::term::term_type_order'
         adt = OWNED
     else:
         B = ctx.body(CMP_B)
-        R = ctx.body(CMP_B + '::{closure#0}')
+        R = P.B(CMP_B + '::{closure#0}') if (CMP_B + '::{closure#0}') in ctx.F.bodies else None
         rank_fn = CMP_B + '::{closure#0}'
         adt = BORROWED
     vs = [v['n'] for v in ctx.F.adts[adt]['variants']] if adt in ctx.F.adts else []
